@@ -99,6 +99,9 @@ fn main() {
             let mut dt = rqv::scene::new_target(w, h, &init);
             for (k, op) in rqv::tree::flat(&nodes).iter().enumerate() {
                 let before = dt.get_data().to_vec();
+                if std::env::var("RQV_TRACE").is_ok() {
+                    println!("about to run #{} {}", k, serde_json::to_string(op).unwrap());
+                }
                 rqv::scene::apply(&mut dt, op);
                 let after = dt.get_data();
                 let ch: Vec<String> = (0..before.len()).filter(|i| before[*i] != after[*i]).take(12).map(|i| format!("({},{}) {:#010x}->{:#010x}", i as i32 % w, i as i32 / w, before[i], after[i])).collect();
@@ -191,7 +194,7 @@ fn run_property(root: &str, prop: &Property, others: &[Property], tier: Tier, se
     // 3. generated search
     let mode = if prop.panic_is_violation { Mode::PanicIsViolation } else { Mode::Normal };
     let parts: Vec<&Box<dyn PartDyn>> = prop.parts.iter().collect();
-    let mut rep = run_parts(&parts, tier, seed, mode, known, 1.0, &prop.min_class_fraction);
+    let mut rep = run_parts(prop.id, &parts, tier, seed, mode, known, 1.0, &prop.min_class_fraction);
     let mut sweep_note = json!(null);
     if prop.id == "C07" && rep.stats.failure.is_none() {
         // C07 also sweeps every other property's generator with the oracle "no library panic"
@@ -202,7 +205,7 @@ fn run_property(root: &str, prop: &Property, others: &[Property], tier: Tier, se
                 continue;
             }
             let scale = if tier == Tier::Quick { 0.1 } else { 0.05 };
-            let mut r = run_parts(&ps, tier, seed ^ 0xc07, Mode::PanicOnly, known, scale, &[]);
+            let mut r = run_parts(o.id, &ps, tier, seed ^ 0xc07, Mode::PanicOnly, known, scale, &[]);
             swept.push(json!({"generator_of": o.id, "evaluations": r.stats.evals}));
             let fail = r.stats.failure.take();
             rep.stats.evals += r.stats.evals;
